@@ -107,6 +107,47 @@ func TestVerifBoundedJSONPatchApply(t *testing.T) {
 			}
 		}
 	}
+	// copies and moves between locations one of which lies inside the other, in every spelling the patch
+	// library treats as the same location, alone and through an alias made by an earlier copy. A patch
+	// that passes validation must apply or fail with an error: a cyclic document kills the process
+	// (stack overflow when it is marshalled), which this harness reports as a panic of the run.
+	spell := map[string][]string{"a": {"a"}, "0": {"0", "+0", "00", "-0"}, "~": {"~0", "~"}, "s/l": {"s~1l"}}
+	var locs [][]string
+	for _, l := range [][]string{{"a"}, {"a", "0"}, {"~"}, {"s/l"}, {"a", "0", "~"}} {
+		locs = append(locs, l)
+	}
+	spellings := func(loc []string) []string {
+		out := []string{""}
+		for _, tok := range loc {
+			var next []string
+			for _, pre := range out {
+				for _, sp := range spell[tok] {
+					next = append(next, pre+"/"+sp)
+				}
+			}
+			out = next
+		}
+		return out
+	}
+	setup := `{"op":"add","path":"/a","value":[{"~":{}}]},{"op":"add","path":"/~0","value":{}},{"op":"add","path":"/s~1l","value":{}}`
+	for _, from := range locs {
+		for _, fs := range spellings(from) {
+			for _, child := range []string{"x", "0", "~0"} {
+				for _, ps := range spellings(from) {
+					for _, kind := range []string{"copy", "move"} {
+						direct := fmt.Sprintf(`[%s,{"op":%q,"from":%s,"path":%s}]`, setup, kind, q(fs), q(ps+"/"+child))
+						alias := fmt.Sprintf(`[%s,{"op":"copy","from":%s,"path":"/alias"},{"op":%q,"from":"/alias","path":%s}]`, setup, q(fs), kind, q(ps+"/"+child))
+						for _, ops := range []string{direct, alias} {
+							cases++
+							if _, _, pan, _ := vbTry(ops); pan {
+								panics++
+							}
+						}
+					}
+				}
+			}
+		}
+	}
 	fmt.Printf("BOUNDED-INFO accepted=%d panics=%d\n", accepted, panics)
 	fmt.Printf("BOUNDED-CASES %d\n", cases)
 }
